@@ -71,12 +71,11 @@ def first_repo_frame(text, repo="/repo/"):
 def crash_key(stderr_text, retcode):
     t = stderr_text
     m = re.search(r"ERROR: AddressSanitizer: (\S+)", t)
-    if m:
+    if m and m.group(1) != "ABRT":
         kind = m.group(1)
-        if kind == "SEGV":
-            kind = "SEGV"
         fr = first_repo_frame(t[m.start():]) or "?"
         return "asan:%s@%s" % (kind, fr)
+    asan_abrt = m
     m = re.search(r"runtime error: (.*)", t)
     if m:
         msg = m.group(1)
@@ -106,6 +105,9 @@ def crash_key(stderr_text, retcode):
     if m:
         loc = m.group(1).split(":")
         return "abort:assert@%s" % os.path.basename(loc[0])
+    if asan_abrt:
+        # abort() caught by ASan's handle_abort without a recognisable reason above
+        return "abort@%s" % (first_repo_frame(t[asan_abrt.start():]) or "?")
     m = re.search(r"ERROR: (\w+Sanitizer): (\S+)", t)
     if m:
         return "%s:%s@%s" % (m.group(1).lower(), m.group(2), first_repo_frame(t) or "?")
@@ -262,7 +264,7 @@ def run_stage(pid, stage, tier, seed, workdir, replay_case=None):
                 return local
             key = crash_key(err, rc if isinstance(rc, int) else None)
             if crash_mode == "violation":
-                local["violations"].append(_crash_violation(pid, stage, seed, tier, j, key, err[-6000:], _note(outdir, shard), outdir, shard, extra))
+                local["violations"].append(_crash_violation(pid, stage, seed, tier, j, key, (err[:4000] + "\n[...]\n" + err[-12000:]) if len(err) > 16000 else err, _note(outdir, shard), outdir, shard, extra))
             else:
                 local["inconclusive"].append("stage %s shard %d: worker died at case %d: %s" % (name, shard, j, key))
                 return local
